@@ -69,6 +69,11 @@ module Z =
   | Zpos x0 -> Zneg x0
   | Zneg x0 -> Zpos x0
 
+  (** val pred : coq_Z -> coq_Z **)
+
+  let pred x =
+    add x (Zneg Coq_xH)
+
   (** val sub : coq_Z -> coq_Z -> coq_Z **)
 
   let sub m n =
@@ -275,4 +280,9 @@ module Z =
        | Zpos b0 -> of_N (N.ldiff (Npos b0) (Pos.pred_N a0))
        | Zneg b0 ->
          Zneg (N.succ_pos (N.coq_lor (Pos.pred_N a0) (Pos.pred_N b0))))
+
+  (** val lnot : coq_Z -> coq_Z **)
+
+  let lnot a =
+    pred (opp a)
  end
